@@ -380,3 +380,59 @@ TRUSTED = TRUSTED + [
 TRUSTED = TRUSTED + [
     "tzlocal translator tie: `time.localtime(u).tm_isdst` and `time.timezone` are named primitives (Model/ObjPy.lean: localtimeIsdst = the zone model's yearly-rule predicate localNaiveIsdst at u + stdoffset with the fraction floored, timeTimezone = -stdoffset); `getattr(dt, 'fold', None)` is the fold (Python >= 3.6); exercised against tz.tzlocal() under several TZ settings on every run",
 ]
+
+
+# --- ONE ZONE OBJECT, MANY CALLS (wt-tzrule): the PEP 495 classification of a tzical zone goes through `_find_comp` and its ten-entry
+# cache (two parallel lists under `_cache_lock`); two threads classifying wall times on ONE zone object must get what a fresh zone gives
+def oracle_shared_pep495(ctx):
+    import datetime
+    import tzshared as S
+    from props import c17
+    rng = ctx.subrng("shared-pep495")
+    funcs = c17._shared_funcs()
+    for k in range(ctx.budget(1, 8)):
+        spec = c17.gen_spec(rng)
+        text = c17.vtimezone(spec, order=k % 2, first_year=1999)
+        mk = lambda text=text: c17.load(text).get()
+        y0, y1 = rng.sample(range(2000, 2030), 2)
+        tu0, tu1 = c17.transitions_utc(spec, y0), c17.transitions_utc(spec, y1)
+        half = (spec["dst"] - spec["std"]) // 2
+        amb = tu1[1] + datetime.timedelta(seconds=spec["std"] + half)          # read twice: inside the repeated interval
+        gap = tu1[0] + datetime.timedelta(seconds=spec["std"] + half)          # skipped: inside the gap
+        summer = tu0[0] + datetime.timedelta(seconds=spec["dst"] + 7200)
+        winter = tu0[1] + datetime.timedelta(seconds=spec["std"] + 7200)
+        case = {"kind": "threads", "zone": "tzical", "text": text, "years": [y0, y1]}
+        with warnings.catch_warnings():
+            warnings.simplefilter("ignore")
+            for warm, jobs in (([("off", summer, 0)], [[("ambg", amb)], [("ambg", amb)]]),
+                               ([("off", summer, 0)], [[("exists", gap)], [("off", summer, 0)]]),
+                               ([("off", winter, 0), ("off", summer, 0)], [[("ambg", amb)], [("off", winter, 0)]]),
+                               ([], [[("off", summer, 0)], [("off", winter, 0)]])):
+                if not S.threads(ctx, "tzical-two-threads-pep495", mk, mk, funcs, "_cache_lock", warm, jobs, case):
+                    break
+    ctx.count("shared_object_zones_pep495")
+
+_oracle_without_shared = oracle
+
+def oracle(ctx):
+    _oracle_without_shared(ctx)
+    oracle_shared_pep495(ctx)
+
+_replay_without_shared = replay
+
+def replay(ctx, payload):
+    c = payload["violation"]["case"]
+    if c.get("kind") == "threads" and c.get("text"):
+        import tzshared as S
+        from props import c17
+        print(payload["violation"]["what"])
+        mk = lambda: c17.load(c["text"]).get()
+        with warnings.catch_warnings():
+            warnings.simplefilter("ignore")
+            return S.replay_threads(mk, mk, c17._shared_funcs(), "_cache_lock", c)
+    return _replay_without_shared(ctx, payload)
+
+TRUSTED = TRUSTED + [
+    "one object, many calls: two-thread statement-level schedules (harness/tzshared.py, sys.settrace, `_cache_lock` replaced by a cooperative lock) over _tzicalvtz._find_comp/_find_compdt/utcoffset/dst while both threads classify wall times (datetime_ambiguous / datetime_exists / utcoffset) on ONE tzical zone; every schedule's answers are compared with a fresh zone's",
+]
+# --- end of the appended block
